@@ -15,6 +15,7 @@ SYNONYMS = {"distros": ["distributions", "distro"], "arch": ["architecture"], "o
             "description": ["desc"], "keywords": ["tags"], "licenses": ["license"], "targets": ["target"], "stacks": ["stack"],
             "dependencies": ["deps"], "order": ["orders"], "group": ["groups"], "optional": ["opt"], "api": ["api-version"],
             "buildpack": ["buildpacks"], "clear-env": ["clearenv"], "sbom-formats": ["sbom"], "mixins": ["mixin"]}
+RESPELL = ["x86_64", "aarch64", "i386", "i686", "AMD64", "arm64/v8", "Linux", "windows", " amd64 ", "armv7l", "v8 ", "UBUNTU", "jammy"]
 STRS = ["", "x", "a b", 'q"uote', "back\\slash", "new\nline", "tab\t", "é☃", "\x01ctl", "="]
 
 
@@ -205,6 +206,15 @@ class C08:
                         t = self.at(m, path)
                         t[nk] = t.pop(k)
                         yield "synonym@" + "/".join(map(str, path + (k,))), m
+            # a string under another spelling other tools use for the same thing (uname vs GOARCH names, case, padding):
+            # still a conforming document, and what is read is what is written
+            for k in list(tbl.keys()):
+                if k not in self.FREE and isinstance(tbl[k], str):
+                    for nv in rng.sample(RESPELL, 4):
+                        if nv != tbl[k]:
+                            m = copy.deepcopy(doc)
+                            self.at(m, path)[k] = nv
+                            yield "respell@" + "/".join(map(str, path + (k,))), m
             for k in list(tbl.keys()):
                 m = copy.deepcopy(doc)
                 del self.at(m, path)[k]
@@ -259,8 +269,8 @@ class C08:
                 muts = list(self.mutations(rng, doc))
                 if tier != "thorough" and len(muts) > 40:
                     # (renamed keys are few per document and each name is its own question: all of them are kept)
-                    syn = [x for x in muts if x[0].startswith("synonym@")]
-                    other = [x for x in muts if not x[0].startswith("synonym@")]
+                    syn = [x for x in muts if x[0].startswith(("synonym@", "respell@"))]
+                    other = [x for x in muts if not x[0].startswith(("synonym@", "respell@"))]
                     muts = rng.sample(other, min(40, len(other))) + syn
                 for name, m in muts:
                     cases.append({"ty": ty, "doc": m, "mut": name, "style": rng.choice([0, 1])})
